@@ -530,6 +530,24 @@ func walk(r *simkit.Run, prop string) {
 				edits = append(edits, "add-table")
 			}
 		}
+		// C17: a text default that spans several lines, one of them blank (a reverse statement that
+		// re-creates such a column is a statement of several lines before any formatter indents it).
+		if prop == "C17" && t.Chance("multi-line-text-default", 1, 8) {
+			cand := next.Clone()
+		pick:
+			for _, tb := range cand.Tables {
+				for _, c := range tb.Cols {
+					if kindOf(c.Type) == "text" && c.Gen == "" && c.Def == "" {
+						c.Def, c.DefExpr = "'first line\n\nthird line'", false
+						break pick
+					}
+				}
+			}
+			if valid(cand) == nil {
+				next = cand
+				edits = append(edits, "multi-line-text-default")
+			}
+		}
 		desired = next
 		for _, e := range edits {
 			r.Probe("edit:" + e)
@@ -1274,11 +1292,16 @@ func checkReverse(ctx context.Context, r *simkit.Run, w *world, obs *sql.DB, pla
 		}
 		gotRB := ""
 		live := ""
+		var gotLines, wantLines []string
+		for _, x := range st {
+			wantLines = append(wantLines, strings.Split(x+";", "\n")...)
+		}
 		for k, l := range strings.Split(cs, "\n") {
 			switch {
 			case k == 0:
 			case strings.HasPrefix(l, "--rollback: "):
 				gotRB += strings.TrimPrefix(l, "--rollback: ")
+				gotLines = append(gotLines, strings.TrimPrefix(l, "--rollback: "))
 			case strings.HasPrefix(l, "--"):
 			default:
 				live += l
@@ -1290,6 +1313,12 @@ func checkReverse(ctx context.Context, r *simkit.Run, w *world, obs *sql.DB, pla
 				sig = "liquibase-multiline-rollback"
 			}
 			r.Fail(prop, "down-file", sig, "step %d: liquibase changeset %d: executable part %q (want the change's statement %q), rollback %q (want %q)", step, i+1, live, plan.Changes[i].Cmd+";", gotRB, wantRB)
+			return
+		}
+		// Line by line: the rollback of a changeset is its reverse statements, each of their lines
+		// behind a "--rollback: " prefix, blank lines (inside a literal) included.
+		if strings.Join(gotLines, "\n") != strings.Join(wantLines, "\n") {
+			r.Fail(prop, "down-file", "liquibase-rollback-lines-differ", "step %d: liquibase changeset %d: the --rollback lines %q are not the lines of the reverse statements %q", step, i+1, gotLines, wantLines)
 			return
 		}
 	}
